@@ -329,96 +329,7 @@ def r_C19a_C01(root):
     nodes = next((k.value for k in pm.value.keywords if k.arg == "nodes"), None) if pm is not None else None
     if not (nodes is not None and isinstance(nodes, ast.List) and ast.unparse(nodes.elts[-1]) == "EOF()" and ast.unparse(nodes.elts[0]) == "top_rule"):
         out.append(Finding("C01", "C01.d", M, "TextXModelParser.__init__", ast.unparse(pm)[:90] if pm else "", "model parser does not require end of input after the first rule"))
-    # C01.a operator tables
-    def lits(fname):
-        f = next(n for n in t.body if isinstance(n, ast.FunctionDef) and n.name == fname)
-        r = f.body[-1].value
-        lst = r if isinstance(r, ast.List) else next(x for x in ast.walk(r) if isinstance(x, ast.List))
-        return [e.value for e in lst.elts]
-    SPEC_REP = {"?": "Optional", "*": "ZeroOrMore", "+": "OneOrMore", "#": "UnorderedGroup"}
-    vr = find_i(root, L, "TextXVisitor.visit_repeatable_expr")
-    chain = next(s for s in ast.walk(vr) if isinstance(s, ast.If) and ast.unparse(s.test).startswith("repeat_op == ") and not (isinstance(getattr(s, "_parent", None), ast.If) and s in s._parent.orelse))
-    got = {}; cur = chain
-    while True:
-        tok = cur.test.comparators[0].value; got[tok] = callee_name(cur.body[-1].value) if isinstance(cur.body[-1], ast.Assign) else None
-        if len(cur.orelse) == 1 and isinstance(cur.orelse[0], ast.If) and ast.unparse(cur.orelse[0].test).startswith("repeat_op == "): cur = cur.orelse[0]
-        else:
-            els = [s for s in cur.orelse if isinstance(s, ast.Assign) and ast.unparse(s.targets[0]) == "rule"]
-            rest = [x for x in lits("repeat_operator") if x not in got]
-            for x in rest: got[x] = callee_name(els[-1].value) if els else None
-            if len(rest) > 1: out.append(Finding("C01", "C01.a", L, "TextXVisitor.visit_repeatable_expr", str(rest), "several repetition operators share the fall-through case"))
-            break
-    for tok in lits("repeat_operator"):
-        inst += 1
-        if got.get(tok) != SPEC_REP.get(tok): out.append(Finding("C01", "C01.a", L, "TextXVisitor.visit_repeatable_expr", "repeat_op == %r" % tok, "operator %r builds %s, documented %s" % (tok, got.get(tok), SPEC_REP.get(tok))))
-    SPEC_ASG = {"+=": ("OneOrMore", "__asgn_oneormore"), "*=": ("ZeroOrMore", "__asgn_zeroormore"), "?=": ("Optional", "__asgn_optional"), "=": ("Sequence", "__asgn_plain")}
-    va = find_i(root, L, "TextXVisitor.visit_assignment")
-    def _asgn_ctor(x): return isinstance(x, ast.Assign) and isinstance(x.value, ast.Call) and any(k.arg == "rule_name" and isinstance(k.value, ast.Constant) and str(k.value.value).startswith("__asgn") for k in x.value.keywords)
-    chain = next((s for s in ast.walk(va) if isinstance(s, ast.If) and ast.unparse(s.test).startswith("op == ") and not (isinstance(getattr(s, "_parent", None), ast.If) and s in s._parent.orelse) and any(_asgn_ctor(x) for x in ast.walk(s))), None)
-    if chain is None: raise AnalysisError("visit_assignment: operator dispatch (op == ... -> assignment rule constructor) not found")
-    got = {}; cur = chain
-    def ctor(block):
-        a = next((s for s in block if _asgn_ctor(s)), None)
-        if a is None: return None
-        rn = next((k.value.value for k in a.value.keywords if k.arg == "rule_name"), None)
-        return (callee_name(a.value), rn)
-    while True:
-        got[cur.test.comparators[0].value] = ctor(cur.body)
-        if len(cur.orelse) == 1 and isinstance(cur.orelse[0], ast.If) and ast.unparse(cur.orelse[0].test).startswith("op == "): cur = cur.orelse[0]
-        else:
-            for x in [x for x in lits("assignment_op") if x not in got]: got[x] = ctor(cur.orelse)
-            break
-    for tok in lits("assignment_op"):
-        inst += 1
-        if got.get(tok) != SPEC_ASG.get(tok): out.append(Finding("C01", "C01.a", L, "TextXVisitor.visit_assignment", "op == %r" % tok, "assignment %r builds %s, documented %s" % (tok, got.get(tok), SPEC_ASG.get(tok))))
-    ve = find(t, "TextXVisitor.visit_expression"); inst += 1
-    pe_ = next((s for s in ve.body if isinstance(s, ast.If) and "children[0] ==" in ast.unparse(s.test)), None)
-    if not (pe_ is not None and pe_.test.comparators[0].value == "!" and "Not(" in ast.unparse(pe_.body[0]) and "And(" in ast.unparse(pe_.orelse[0]) and set(lits("syntactic_predicate")) == {"!", "&"}):
-        out.append(Finding("C01", "C01.a", L, "TextXVisitor.visit_expression", ast.unparse(pe_.test) if pe_ else "", "'!' must build Not and '&' must build And"))
-    # reader side in model.py
-    pn = find(load(root, M), "parse_tree_to_objgraph.process_node"); inst += 1
-    handled = set()
-    for s in ast.walk(pn):
-        if isinstance(s, ast.If) and ast.unparse(s.test).startswith("op "):
-            c = s.test.comparators[0]
-            handled |= {c.value} if isinstance(c, ast.Constant) else {e.value for e in c.elts}
-    written = {v[1].split("_")[-1] for v in SPEC_ASG.values()}
-    if not written <= handled: out.append(Finding("C01", "C01.a", M, "process_node", str(sorted(handled)), "assignment kinds built by the grammar compiler but not handled by the model builder: %s" % sorted(written - handled)))
-    # C01.b modifier keys
-    vmod = find(t, "TextXVisitor.visit_repeat_modifiers")
-    wkeys = {s.targets[0].slice.value for s in ast.walk(vmod) if isinstance(s, ast.Assign) and isinstance(s.targets[0], ast.Subscript) and ast.unparse(s.targets[0].value) == "modifiers"}
-    def _mod_keys_read(e):
-        """modifier keys an expression reads: d.get('k', ...), d['k'], 'k' in d"""
-        ks = set()
-        for n in ast.walk(e):
-            if isinstance(n, ast.Call) and callee_name(n) == "get" and n.args and isinstance(n.args[0], ast.Constant) and isinstance(n.args[0].value, str): ks.add(n.args[0].value)
-            elif isinstance(n, ast.Subscript) and isinstance(n.slice, ast.Constant) and isinstance(n.slice.value, str): ks.add(n.slice.value)
-            elif isinstance(n, ast.Compare) and len(n.ops) == 1 and isinstance(n.ops[0], ast.In) and isinstance(n.left, ast.Constant) and isinstance(n.left.value, str): ks.add(n.left.value)
-        return ks
-    from sa import sem as _sem_b
-    for fn_name in ("visit_repeatable_expr", "visit_assignment"):
-        f = find_i(root, L, "TextXVisitor." + fn_name); inst += 1
-        fi_ = _sem_b.info(f)
-        rd = set()
-        for st_ in [x for x in ast.walk(f) if isinstance(x, (ast.Assign, ast.Expr))]:
-            if isinstance(st_, ast.Assign):
-                tg = [t_ for t_ in st_.targets if isinstance(t_, ast.Attribute)]
-                if not tg: continue
-                attr_ = tg[0].attr; val_ = st_.value
-            else:
-                c_ = st_.value
-                if not (isinstance(c_, ast.Call) and callee_name(c_) == "setattr" and len(c_.args) == 3 and isinstance(c_.args[1], ast.Constant)): continue
-                attr_ = c_.args[1].value; val_ = c_.args[2]
-            try: ex_ = fi_.expand(val_, at=st_)
-            except Exception: ex_ = val_
-            ks = _mod_keys_read(ex_) | _mod_keys_read(val_); gk = set()
-            for g_, pol_ in guards(st_):
-                gk |= _mod_keys_read(g_)
-                if pol_: ks |= _mod_keys_read(g_)
-            # rule.<k> is written from / under modifier key <k>, and whether it is written depends on no other modifier
-            if attr_ in ks and gk <= {attr_}: rd.add(attr_)
-        need_ = {"sep", "eolterm"} & wkeys
-        if not need_ <= rd: out.append(Finding("C01", "C01.b", L, "TextXVisitor." + fn_name, "modifiers", "repetition modifiers not applied: %s" % sorted(need_ - rd)))
+    # C01.a / C01.b (what the repetition and assignment visitors build) are decided by evaluation: sa/rules/c01e.py
     # C01.c: rule modifiers only on expressions that honour them (truth table on the setattr path)
     inst += 1
     sa = next((c for c in calls(vt, own=True) if callee_name(c) == "setattr" and "rule_params" in ast.unparse(c)), None)
